@@ -4,7 +4,8 @@ from ..translate import go_translator
 SPEC = Spec(
     pid="C04",
     lean_modules=["OtelVerif.Props.C04"],
-    translators=[go_translator("c04shape", "OtelVerif/Gen/C04Shape.lean")],
+    translators=[go_translator("c04shape", "OtelVerif/Gen/C04Shape.lean"),
+                 go_translator("c04config", "OtelVerif/Gen/C04Config.lean")],
     harnesses=[
         Harness(name="mergesplit", module="exporter", pkg="exporter/exporterhelper",
                 files={"zz_verif_c04_ms_test.go": "c04/mergesplit_test.go", "zz_verif_c04_payload_test.go": "c04/payload_gen.go"},
@@ -15,6 +16,18 @@ SPEC = Spec(
         Harness(name="batcher", module="exporter", pkg="exporter/exporterhelper/internal/queuebatch", go="go1.26",
                 files={"zz_verif_c04_batcher_test.go": "c04/batcher_test.go"},
                 test="TestVerifC04Batcher", driver="drv_c04", n={"quick": 1500, "thorough": 100000}, timeout_s=1500),
+        Harness(name="e2e", module="exporter", pkg="exporter/exporterhelper", go="go1.26",
+                files={"zz_verif_c04_e2e_test.go": "c04/e2e_test.go"},
+                test="TestVerifC04E2E", driver="drv_c04", n={"quick": 1200, "thorough": 60000}, timeout_s=1500),
+        Harness(name="e2e-profiles", module="exporter/exporterhelper/xexporterhelper", pkg="exporter/exporterhelper/xexporterhelper", go="go1.26",
+                files={"zz_verif_c04_e2e_profiles_test.go": "c04/e2e_profiles_test.go"},
+                test="TestVerifC04E2EProfiles", driver="drv_c04", n={"quick": 500, "thorough": 30000}, timeout_s=1500),
+        Harness(name="config", module="exporter", pkg="exporter/exporterhelper/internal/queuebatch",
+                files={"zz_verif_c04_config_test.go": "c04/config_test.go"},
+                test="TestVerifC04Config", driver="drv_c04", n={"quick": 1500, "thorough": 60000}, timeout_s=900),
+        Harness(name="legacy-config", module="exporter", pkg="exporter/exporterhelper/internal",
+                files={"zz_verif_c04_legacy_test.go": "c04/legacy_test.go"},
+                test="TestVerifC04Legacy", driver="drv_c04", n={"quick": 800, "thorough": 30000}, timeout_s=900),
     ],
     rule="mergesplit/profiles: corpus first (the two design-time witnesses: 4-point sum with max 3 items; one 500-byte record with max 100 "
          "bytes; and the witness of the profiles items sizer defect, found by the harness, not at design time: one 5-sample profile "
@@ -32,7 +45,15 @@ SPEC = Spec(
          "max_size = min_size + {0,0,1,2,5} or 0, 1-10 labels (consume, 1 in 8 without items / finish a random in-flight flush "
          "with outcome ok, plain error or shutdown-classified error / timer flush) then Shutdown and completion of every flush in "
          "random order; every 10th case drives disabledBatcher instead; the callback records whether the (combined) error carries "
-         "each classification; non-trivial = a request was merged into a pending batch. distinct = distinct op lines (sha1).",
+         "each classification; 1 batcher case in 5 draws min/max/flush_timeout from the RAW space (max below min, negative, no timeout) "
+         "through the real BatchConfig.Validate(); non-trivial = a request was merged into a pending batch. "
+         "e2e / e2e-profiles: REAL logs / traces / metrics / profiles (0-3 samples each) requests of 1-2 resources x 1-2 scopes with per-request identities through the real "
+         "queuebatch.NewQueueBatch (wait_for_result memory queue, one batcher worker) in one synctest bubble, items / bytes sizer "
+         "(min/max x 60 bytes), 1-8 labels (send / finish the in-flight export with ok, plain or shutdown error / timer) then "
+         "Shutdown; monitored; non-trivial = >= 2 requests. config / legacy-config: RAW Config, BatchConfig, BatcherConfig "
+         "(values from {-3,-1,0,1,2,5,10,1000}, max = min-2..min+2, every sizer incl. the zero value, storage, 1-3 registered "
+         "sizers, legacy flag) through the real Validate functions, newQueueBatchConfig and newQueueBatch; non-trivial = a default "
+         "batcher was built / the legacy batcher is enabled. distinct = distinct op lines (sha1).",
     trusted_base=[
         "Lean 4.33.0 kernel; axioms per theorem listed under axioms_per_theorem (subset of propext, Classical.choice, Quot.sound)",
         "translator translators/cmd/c04shape (go/ast): alpha-normalised AST equality of logs_batch.go / traces_batch.go / "
@@ -47,6 +68,14 @@ SPEC = Spec(
         "bridge between the batcher's contract (pack) and MergeSplit: C04_mergeSplit_fifo / C04_first_result_criterion (model "
         "mergeSplit is FIFO, pending batch first; ItemsCount criterion), the `fifo` oracle on every real MergeSplit output, and "
         "`last_is_receiver` (receiver returned as last result) on every real call; metrics FIFO is oracle only",
+        "translator translators/cmd/c04config (go/ast): the three Validate functions as rule lists, the struct field lists and the "
+        "default configurations; the interpreter runRules + the environments (field name -> value) in Model/C04Config.lean; "
+        "xconfmap.Validate calls Config.Validate, BatchConfig.Validate and BatcherConfig.Validate for an exporter configuration "
+        "(`accepted` = their conjunction)",
+        "newQueueBatchConfig / newQueueBatch / NewQueueSender hand-modelled, tied by exact differential on raw configurations (built "
+        "batcher read back in-package: kind, sizerType, BatchConfig, worker count)",
+        "e2e harness (real requests through the real queue + batcher): monitored, judged by the Lean Done oracle and direct Go "
+        "oracles; item-less batches made of emptied resource shells MAY carry the request's Done (zero-size unit)",
         "batcher harness: the request type is a fake that records the origin of every unit; its MergeSplit (FIFO packing) is the "
         "contract of the real one, not the real one (queuebatch cannot import exporterhelper)",
     ],
@@ -58,6 +87,8 @@ SPEC = Spec(
         "metrics x bytes: size bound FALSE on /repo (open finding batch-exceeds-max/metrics-bytes-empty-fragment), cachedSize is an upper "
         "bound (>=): oracle on every run, no theorem",
         "Consume, the timer flush and Shutdown are serialised by currentBatchMu (modelled as atomic labels); flush goroutines end in any order",
+        "the batcher's worker pool (one worker when batching is configured) only delays the start of an export: the histories with a "
+        "pool are a subset of those the Done theorems quantify over; exercised by e2e, not modelled",
         "int arithmetic does not overflow (sizes are far below 2^63)",
     ],
 )
